@@ -172,4 +172,54 @@ example : ndjson exPrg true "jq" [] [.json 5, .json 1, .json 11] = ⟨["true", "
   simp [docSpec, exPrg, setVar, boolText]
 end Example
 
+/-! ### from the list of lines to the input TEXT (`for document in sys.stdin`) -/
+
+/-- nothing of the input is lost, added or reordered by the cutting into documents, and no document is empty -/
+theorem lines_partition_input (text : List Char) :
+    (splitLines text).flatten = text ∧ ∀ l ∈ splitLines text, l ≠ [] :=
+  ⟨splitLines_flatten text, splitLines_ne_nil text⟩
+
+/-- **one document per physical line, whatever else the line contains**: a text made of the lines `ls` (any characters except
+`'\n'` — U+2028, U+2029, U+0085, form feed, … included), each terminated by `'\n'`, and an optional unterminated last line `t` is
+cut into exactly these lines -/
+theorem documents_are_physical_lines (ls : List (List Char)) (t : List Char) (h : ∀ l ∈ ls, '\n' ∉ l) (ht : '\n' ∉ t) :
+    splitLines (ls.flatMap (· ++ ['\n']) ++ t) = ls.map (· ++ ['\n']) ++ (if t = [] then [] else [t]) :=
+  splitLines_lines ls t h ht
+
+/-- "the k-th output line depends only on the k-th document", on the input text: for every decoder, every program and every text
+made of `'\n'`-terminated lines, stdout is the concatenation of what each line prints on its own and the status is the worst
+per-line status -/
+theorem text_line_independence {δ : Type} (prg : Prog δ) (b : Bool) (var : String) (act₀ : Activation δ)
+    (decode : List Char → Line δ) (ls : List (List Char)) (ht : Total prg) (h : ∀ l ∈ ls, '\n' ∉ l)
+    (hc : ∀ l ∈ ls, (decode (l ++ ['\n'])).clean = true) :
+    ndjsonText prg b var act₀ decode (ls.flatMap (· ++ ['\n'])) =
+      ⟨ls.flatMap (fun l => (docSpec prg b act₀ var (decode (l ++ ['\n']))).1),
+       .ok ((ls.map (fun l => (docSpec prg b act₀ var (decode (l ++ ['\n']))).2)).foldl max 0)⟩ := by
+  have hs := splitLines_lines ls [] h (by simp)
+  simp only [List.append_nil, if_true] at hs
+  unfold ndjsonText
+  rw [hs, ndjson_spec prg b var act₀ _ ht (by
+    intro l hl
+    simp only [List.map_map, List.mem_map, Function.comp] at hl
+    obtain ⟨x, hx, rfl⟩ := hl
+    exact hc x hx)]
+  simp [List.flatMap_map, List.map_map, Function.comp_def]
+
+/-- … in particular the text `pre ⧺ line ⧺ post`: the middle line's output does not mention `pre` or `post` -/
+theorem text_line_in_context {δ : Type} (prg : Prog δ) (b : Bool) (var : String) (act₀ : Activation δ)
+    (decode : List Char → Line δ) (pre post : List (List Char)) (l : List Char) (ht : Total prg)
+    (h : ∀ x ∈ pre ++ l :: post, '\n' ∉ x) (hc : ∀ x ∈ pre ++ l :: post, (decode (x ++ ['\n'])).clean = true) :
+    (ndjsonText prg b var act₀ decode ((pre ++ l :: post).flatMap (· ++ ['\n']))).out =
+      (ndjsonText prg b var act₀ decode (pre.flatMap (· ++ ['\n']))).out ++
+      (docSpec prg b act₀ var (decode (l ++ ['\n']))).1 ++
+      (ndjsonText prg b var act₀ decode (post.flatMap (· ++ ['\n']))).out := by
+  rw [text_line_independence prg b var act₀ decode _ ht h hc,
+      text_line_independence prg b var act₀ decode pre ht (fun x hx => h x (by simp [hx])) (fun x hx => hc x (by simp [hx])),
+      text_line_independence prg b var act₀ decode post ht (fun x hx => h x (by simp [hx])) (fun x hx => hc x (by simp [hx]))]
+  simp [List.flatMap_append]
+
+/-! non-vacuity: a line containing U+2028 and a form feed is one document; a last line without newline is a document -/
+example : splitLines "{\"s\": \"a b\u000cc\"}\n7\n".toList = ["{\"s\": \"a b\u000cc\"}\n".toList, "7\n".toList] := by decide
+example : splitLines "1\n\n2".toList = ["1\n".toList, "\n".toList, "2".toList] := by decide
+
 end Cel.Props.C20
